@@ -15,7 +15,7 @@ RULE = ("sched: every order of the critical sections of 2 senders x 1..2 sends a
         "waits at a lock, sleeps or is done; the order actually taken is replayed through the model, which must enable every step and "
         "predict every send result, the peer's per-connection history (EHLO, NOOP probes, whole transactions with one sender's identity, "
         "QUIT, close) and the idle count. Independently of the model: transactions are whole and never mix two sends, every successful "
-        "send is committed exactly once and no failed send is, a reused connection is probed first. Non-trivial = at least two senders "
+        "send is committed exactly once and no failed send is, a reused connection is probed first; every message carries a tail `CR CR LF . CR LF RSET CR LF` and must arrive unaltered; `late`: the end of data of one send is answered after the client's timeout — the send fails as a timeout, its connection sees nothing but QUIT, the next send gets the reply to its own end of data on another connection. Non-trivial = at least two senders "
         "interleave (a token of another sender between a sender's check-out and return); distinct = distinct case lines.")
 TRUSTED_BASE = ["Lean 4 kernel", "axioms: propext, Quot.sound, Classical.choice at most (see axioms per theorem)",
                 "atomicity of one transition: the lock-free work a thread does between two lock acquisitions touches only connections it owns "
@@ -48,6 +48,10 @@ def gen(tier, rng):
         pre = rng.choice([0, 0, 1, 2, 3])
         faults = sg.random_faults(rng, 8, 0.35, kind) if rng.random() < 0.5 else []
         cases.append(sg.line(kind, mx, pre, 60000, senders, sends, faults, sg.prefill(pre) + sg.random_schedule(rng, kind, senders, sends)))
+    # a reply that comes after the client's timeout: the connection is out of step with the peer and carries nothing more
+    # (blocking transport; the tokio client has no deadline of its own)
+    for t in {"quick": [150], "search": [120, 250], "thorough": [100, 150, 250, 400]}[tier]:
+        cases.append(f"late\t{t}")
     if tier == "thorough":
         for kind in "s":
             for (senders, sends) in [(2, 3), (4, 1)]:
@@ -62,6 +66,8 @@ def timing_dependent(case):
 
 
 def nontrivial(case):
+    if case.startswith("late"):
+        return True
     toks = case.split("\t")[8].split(",")
     s = [t for t in toks if t.startswith("s")]
     return any(s[i] != s[i + 1] for i in range(len(s) - 1))
@@ -75,6 +81,9 @@ def distribution(cases):
     d = {"sync": 0, "tokio": 0, "with_faults": 0, "prefilled": 0}
     for c in cases:
         f = c.split("\t")
+        if f[0] == "late":
+            d["late_reply"] = d.get("late_reply", 0) + 1
+            continue
         d["sync" if f[1] == "s" else "tokio"] += 1
         d["with_faults"] += f[7] != "-"
         d["prefilled"] += f[3] != "0"
